@@ -489,3 +489,58 @@ def cases(tier, seed):
 def evidence_extra(tier):
     return {'not_decided': ['rcp/rsqrt relative error bounds', 'product()', 'integer division', 'complex SIMD vectors',
                             'rounding of float sum()/dot() (proved: each lane / product exactly once)']}
+
+# ---- supporting static fact: no integer lane access through incompatible pointer casts ------------------------------
+# The proofs read clang's LLVM IR, where a lane read through ((int64_t*)&v)[i] has its obvious meaning.  Under the C++
+# aliasing rules that access is undefined for the integer vector types (__m128i/__m256i/__m512i have `long long` lanes;
+# int32_t/int64_t are different types), and g++ -O2 really did compile such code to zeros (fixed in babc9fa, 96ebd57,
+# c24bbe3).  The scan keeps the assumption "the IR semantics is the semantics every conforming compiler must give" from
+# silently failing again: any cast of the address of an object to an integer-scalar pointer in the integer SIMD headers
+# is reported, unless the enclosing function is never referenced anywhere else in Fastor/ (dead helper).
+_PUN_FILES = ['Fastor/simd_vector/simd_vector_int32.h', 'Fastor/simd_vector/simd_vector_int64.h', 'Fastor/simd_vector/extintrin.h',
+              'Fastor/simd_vector/simd_vector_common.h', 'Fastor/simd_vector/simd_vector_abi.h']
+_PUN_RE = re.compile(r'(\(\s*(const\s+)?(int|int32_t|int64_t|long|long long|Int|unsigned|uint\d+_t|size_t|scalar_value_type)\s*\*\s*\)\s*\(?\s*&)'
+                     r'|(reinterpret_cast<\s*(const\s+)?(int|int32_t|int64_t|long|long long|Int|uint\d+_t|scalar_value_type)\s*\*\s*>\s*\(\s*&)')
+_FN_RE = re.compile(r'^\s*(?:template<[^;{]*>\s*)?(?:FASTOR_INLINE|FASTOR_HINT_INLINE|inline|static)\b[^;(]*?\b(operator\s*[^\s(]+|\w+)\s*\(')
+
+def pun_scan(repo):
+    hits = []; nfiles = 0; nlines = 0
+    alltext = None
+    for rel in _PUN_FILES:
+        path = os.path.join(repo, rel)
+        if not os.path.exists(path): continue
+        nfiles += 1
+        fn = '?'
+        for ln, line in enumerate(open(path, errors='replace'), 1):
+            nlines += 1
+            code = line.split('//')[0]
+            m = _FN_RE.match(code)
+            if m: fn = m.group(1)
+            if _PUN_RE.search(code):
+                hits.append((rel, ln, fn, line.strip()))
+    out = []
+    for (rel, ln, fn, text) in hits:
+        if re.fullmatch(r'\w+', fn) and fn.startswith('_mm'):
+            if alltext is None:
+                alltext = ''
+                for root, _, files in os.walk(os.path.join(repo, 'Fastor')):
+                    for f in files:
+                        alltext += open(os.path.join(root, f), errors='replace').read()
+            if len(re.findall(r'\b%s\b' % re.escape(fn), alltext)) <= 1: continue      # defined, never referenced
+        out.append((rel, ln, fn, text))
+    return {'pun_scan_files': nfiles, 'pun_scan_lines': nlines, 'pun_scan_hits': len(out),
+            'pun_scan_note': 'supporting static fact (regex scan, not a proof): integer SIMD headers contain no lane access through incompatible pointer casts'}, out
+
+def post_run(tier, seed):
+    import vf
+    summary, hits = pun_scan(vf.REPO)
+    byfn = {}
+    for (rel, ln, fn, text) in hits: byfn.setdefault((rel, fn), []).append((ln, text))
+    viol = []
+    for (rel, fn), ls in sorted(byfn.items()):
+        viol.append({'case': 'C08/lane-pun/%s/%s' % (os.path.basename(rel), fn),
+                     'names': ['%s:%d' % (rel, ln) for ln, _ in ls],
+                     'replay': {'property': 'C08', 'kind': 'integer lane access through an incompatible pointer cast (undefined under strict aliasing; g++ -O2 has compiled this pattern to zeros)',
+                                'file': rel, 'function': fn, 'lines': [{'line': ln, 'text': t} for ln, t in ls],
+                                'verdict': 'static fact; the clang-IR based proof cannot see what another compiler does with this undefined access'}})
+    return summary, viol
